@@ -55,6 +55,7 @@ type HarnessResult struct {
 	Trivial       int // folded to true by the encoder
 	Discharged    int
 	Violations    []ViolationRec
+	ViolCount     map[string]int // violations found per kind|site (only the first few vectors per site are kept)
 	Inconclusive  []string
 	CoverHit      map[string]bool
 	CoverSeen     map[string]bool
@@ -87,7 +88,7 @@ type obsRec struct {
 
 func newHarnessResult(name string) *HarnessResult {
 	return &HarnessResult{Name: name, EndReasons: map[string]int{}, CoverHit: map[string]bool{}, CoverSeen: map[string]bool{},
-		ReachHit: map[string]bool{}, AssertSeen: map[string]int{}, SiteSet: map[string]bool{}, Funcs: map[string]bool{}, Stubs: map[string]bool{},
+		ReachHit: map[string]bool{}, AssertSeen: map[string]int{}, SiteSet: map[string]bool{}, ViolCount: map[string]int{}, Funcs: map[string]bool{}, Stubs: map[string]bool{},
 		Observations: map[string]string{}}
 }
 
@@ -484,7 +485,7 @@ func (p *Path) decideOne(o pendingObl) {
 		r.Discharged++
 	case Sat:
 		v := ViolationRec{Harness: p.harness, Kind: o.kind, Label: o.label, Site: o.site, Pos: o.pos, Detail: o.detail, Vector: p.modelVector(m), Path: append([]Decision{}, p.decisions...)}
-		r.Violations = append(r.Violations, v)
+		r.addViolation(v)
 	default:
 		r.Inconclusive = append(r.Inconclusive, fmt.Sprintf("solver unknown on obligation %s/%s at %s", o.kind, o.label, o.site))
 	}
@@ -522,6 +523,16 @@ func siteName(fn *ssa.Function) string {
 }
 
 // goPanic models an explicit panic reaching this point.
+// addViolation (caller holds r.mu) counts a violation and keeps the first few counterexample vectors per (kind, site).
+// Exploration is NOT cut short by many violations of the same site, so that a known finding cannot hide a different one.
+func (r *HarnessResult) addViolation(v ViolationRec) {
+	k := v.Kind + "|" + v.Site
+	r.ViolCount[k]++
+	if r.ViolCount[k] <= 4 {
+		r.Violations = append(r.Violations, v)
+	}
+}
+
 func (p *Path) goPanic(msg, site string) {
 	if p.tolerant > 0 {
 		panic(tolerantFail{"panic during init: " + msg})
@@ -536,7 +547,7 @@ func (p *Path) goPanic(msg, site string) {
 			r.SiteSet[site] = true
 			switch res {
 			case Sat:
-				r.Violations = append(r.Violations, ViolationRec{Harness: p.harness, Kind: "panic", Label: "explicit-panic", Site: site, Pos: p.curSite, Detail: msg, Vector: p.modelVector(m), Path: append([]Decision{}, p.decisions...)})
+				r.addViolation(ViolationRec{Harness: p.harness, Kind: "panic", Label: "explicit-panic", Site: site, Pos: p.curSite, Detail: msg, Vector: p.modelVector(m), Path: append([]Decision{}, p.decisions...)})
 			case Unsat:
 				r.Discharged++
 			default:
